@@ -18,18 +18,22 @@ def sh(cmd, cwd, timeout=1800):
 
 def main():
     pid, var = sys.argv[1], sys.argv[2]
+    rnd = ""
+    if "--round" in sys.argv:
+        rnd = sys.argv[sys.argv.index("--round") + 1]
     checks = [pid]
     if "--checks" in sys.argv:
         checks = sys.argv[sys.argv.index("--checks") + 1].split(",")
-    wt = f"/tmp/mut/{pid}"
+    mutroot = "/tmp/mut" + rnd
+    wt = f"{mutroot}/{pid}"
     src = f"{wt}/out/{var}"
-    dst = os.path.join(ROOT, "seeded", f"{pid}-{var}")
+    dst = os.path.join(ROOT, "seeded", f"{pid}-{var}{rnd}")
     os.makedirs(dst, exist_ok=True)
     meta = dict(property=pid, variant=var, ran=[])
     notes = open(os.path.join(src, "NOTES.md")).read() if os.path.exists(os.path.join(src, "NOTES.md")) else ""
     demos = [f for f in os.listdir(src) if f.endswith("_test.go") or f == "demo.sh"]
     # ---- confirm in the scratch worktree -----------------------------------------------------------
-    stash = f"/tmp/mut/{pid}.out"
+    stash = f"{mutroot}/{pid}.out"
     if os.path.exists(stash):
         shutil.rmtree(stash)
     shutil.copytree(f"{wt}/out", stash)
@@ -93,7 +97,7 @@ def main():
     meta["needs"] = " ".join(mm.group(1).split())[:600] if mm else ""
     sp = os.path.join(ROOT, "seeded", "SUMMARY.json")
     if os.path.exists(sp):
-        meta["what"] = json.load(open(sp)).get(f"{pid}-{var}", "")
+        meta["what"] = json.load(open(sp)).get(f"{pid}-{var}{rnd}", "")
     meta["breaks_property"] = pid
     shutil.copy(f"{stash}/{var}/patch.diff", os.path.join(dst, "patch.diff"))
     for d in demos:
